@@ -127,6 +127,10 @@ func (e *envelopeEncryption) intermediateKeyFromEKR(sk accessorRevokable, ekr *E
 		return e.Crypto.Decrypt(ekr.EncryptedKey, skBytes)
 	})
 	if err != nil {
+		// WithKeyFunc can hand back the decrypted key together with an error
+		// (the secret failed to re-protect its memory after the callback ran)
+		internal.MemClr(ikBuffer)
+
 		return nil, err
 	}
 
